@@ -126,7 +126,10 @@ def kernel_obligations(chk):
 
 # ============================================================================================================ system
 class System:
-    def __init__(self, it, NW, NL, threads=1):
+    def __init__(self, it, NW, NL, threads=1, cone="positive"):
+        """cone='positive': every layer lies below every guide star (the domain of the covariance formula, C01);
+        cone='nonzero': a layer may also lie ABOVE a guide star (the code then works with negative meta sub-aperture sizes and still returns
+        a finite matrix; C03 speaks about every configuration that builds) -- only the layer exactly AT the guide star (division by 0) is excluded"""
         self.NW, self.NL = NW, NL
         self.nx = [z3.Int("nx%d" % i) for i in range(NW)]
         self.N = [z3.Int("nsub%d" % i) for i in range(NW)]
@@ -150,7 +153,10 @@ class System:
             it.ctx.assume(a)
         for i in range(NW):
             for l in range(NL):
-                it.ctx.assume(z3.Implies(self.H[i] != 0, 1 - self.alt[l] / self.H[i] > 0))      # the LGS cone does not collapse below the layer
+                if cone == "positive":
+                    it.ctx.assume(z3.Implies(self.H[i] != 0, 1 - self.alt[l] / self.H[i] > 0))      # the LGS cone does not collapse below the layer
+                else:
+                    it.ctx.assume(z3.Implies(self.H[i] != 0, 1 - self.alt[l] / self.H[i] != 0))
         self.threads = threads
         mod = frontend.load(SC)
         self.obj = it.call(RepoClass(mod, "CovarianceMatrix"), [NW, self.masks, self.T, self.d, self.H, self.th, self.lam, NL, self.alt, self.r0, self.L0], {"threads": threads})
@@ -371,7 +377,7 @@ def c03_obligations(chk, NW=3, NL=2):
         it.summaries = dict(it.summaries)
         it.summaries[(SC, "wfs_covariance")] = pure_block_summary(log)
         it.ctx.assume(threads >= 2)
-        S = System(it, NW, NL, threads=1)
+        S = System(it, NW, NL, threads=1, cone="nonzero")
         o = S.obj
         mats = []
         for t in (1, threads, 1):
@@ -403,6 +409,12 @@ def c03_obligations(chk, NW=3, NL=2):
     # frame: a worker's result is a function of its argument tuple only
     an = effects.Analyzer()
     mod = frontend.load(SC)
+    # "returns the same matrix again": the matrix a build returned stays what it was -- no later build (or other method) writes in place into the
+    # array object that self.covariance_matrix held when the method was entered (each build allocates its own matrix before filling it)
+    esc, pre = effects.escaping_prestate_writes(an, mod, "CovarianceMatrix")
+    chk.add("CovarianceMatrix: no method writes in place into an array that an earlier call returned to the caller (attributes returned: %s)%s" % (", ".join(esc), (" [" + "; ".join("%s line %d: %s (self.%s)" % (q.split(".")[-1], st.lineno, st.what[:50], a) for q, st, a in pre)[:300] + "]") if pre else ""),
+            [], z3.BoolVal(not pre), SC + ":CovarianceMatrix", "effects-analysis (entry-state objects of self written in place vs. attributes returned by methods)", "builds", kind="frame",
+            replay=lambda m: {"kind": "equal", "held": True})
     for q in ("wfs_covariance_mpwrap", "wfs_covariance", "calculate_wfs_seperations", "compute_covariance_xx", "compute_covariance_yy", "compute_covariance_xy", "structure_function_vk"):
         s = an.summary(mod, q)
         chk.functions["%s:%s" % (SC, q)] = {"sha256": mod.sha256, "dropped": frontend.dropped(mod.funcs[q])}
